@@ -1543,6 +1543,16 @@ def ident_run(fns, table, comb, faithful_notes):
                 elif not ok:
                     failures.append(fail(f.name, 'C13.ident.%s-without-keyword-check' % f.name,
                                          '%s is built from %s which does not refuse is_keyword(..)' % (n[1], impls or 'no *_impl lexer'), ['C13'], f))
+    # (1b) the identifier lexers of `pragma (identifier_pragma, simple_identifier_pragma*: no reserved-word check, 22.11 lets a pragma name
+    #      any word) are reachable from the pragma productions only
+    for f in fns:
+        if not f.ast or f.name.startswith('pragma') or f.name in ('identifier_pragma', 'simple_identifier_pragma', 'simple_identifier_pragma_impl'):
+            continue
+        bad_ = sorted(c for c in called_names(f.ast) if c in ('identifier_pragma', 'simple_identifier_pragma', 'simple_identifier_pragma_impl'))
+        if bad_:
+            checked += 1
+            failures.append(fail(f.name, 'C13.ident.%s-uses-the-lexer-without-keyword-check' % f.name,
+                                 '%s takes its identifier from %s, which accepts reserved words (meant for `pragma only)' % (f.name, ', '.join(bad_)), ['C13'], f))
     # (2),(3) is_keyword / begin_keywords / end_keywords: decided semantically by unit kwstack (Verus); here only their presence
     for nm in ('is_keyword', 'begin_keywords', 'end_keywords'):
         checked += 1
